@@ -272,6 +272,8 @@ def reference(rec, A, method, trait, args, c):
     if method == "signum":
         return enc(A, (a > 0) - (a < 0), n)
     if stem == "pow":
+        if b > 64:
+            return NotImplemented
         return forms(kind, a ** b, c)
     return NotImplemented
 
@@ -406,6 +408,10 @@ def rand_val(A, n, rnd):
 
 
 def main():
+    tier = "quick"
+    if "--thorough" in sys.argv:
+        sys.argv.remove("--thorough")
+        tier = "thorough"
     props = sys.argv[1:] or ["C01", "C02", "C03", "C05", "C06", "C07", "C08", "C09", "C10", "C13", "C14", "C15", "C17", "C18", "C19"]
     ctx = core.Ctx()
     rnd = random.Random(12345)
@@ -417,7 +423,7 @@ def main():
         core_d = core.d_row
         core.d_row = lambda *a, **k: None            # the rows are only recorded here, not analysed
         try:
-            deprows.obligations(ctx, prop, "quick")
+            deprows.obligations(ctx, prop, tier)
         finally:
             core.d_row = core_d
         recs = [r for r in deprows.RECORD if r["config"] in ("Kd", "Kdn")]
@@ -520,6 +526,7 @@ def main():
                         if byte is None:
                             cands = [0, (1 << db) - 1, 1, 1 << (db - 1), old ^ 1, rnd.getrandbits(db), rnd.getrandbits(db), 2, 3, 5, 7, 50, 80, 100, 200,
                                      (1 << db) - 2, old ^ (1 << (db - 1))] + [1 << k8 for k8 in range(8, db, 8)]
+                            cands += [rnd.getrandbits(rnd.randrange(1, db + 1)) for _ in range(6)]
                             cands += list(range(9, 34, 2)) + [(1 << (db // 2)) - 1, (1 << (db // 2)) + 1, (1 << db) - 1 - (1 << (db // 2)), 0xB5 << max(0, db - 8)]
                             cands = [x & ((1 << db) - 1) for x in cands]
                         else:
@@ -561,6 +568,8 @@ def main():
                                 outs.append(nv)
                 return outs
 
+            if not rec["required"]:
+                continue
             probe = evaluate(gen())
             if probe is NotImplemented:
                 unval_rows += 1
